@@ -1,8 +1,8 @@
 (* C08 — packet identifiers: unique while in use, released exactly once, never leaked.
    Statements only; proofs in Conn/IdsQuota.v (on top of the allocator refinement of C20), Conn/WfInv.v and
-   Conn/Own.v, Conn/OwnFrame.v, Conn/OwnStep.v, Conn/OwnUndet.v (the ownership invariant).
+   Conn/Own.v, Conn/OwnFrame.v, Conn/OwnStep.v, Conn/OwnUndet.v (the ownership invariant), Conn/Account.v.
    Nothing else may be added to this file. *)
-From MQ Require Import Base.Prelude Alloc.Alloc Alloc.AllocProofs Conn.Types Conn.ConnRecord Conn.Step Conn.Run Conn.IdsQuota Conn.WfInv Conn.Own Conn.OwnFrame Conn.OwnStep Conn.OwnUndet.
+From MQ Require Import Base.Prelude Alloc.Alloc Alloc.AllocProofs Conn.Types Conn.ConnRecord Conn.Step Conn.Run Conn.IdsQuota Conn.WfInv Conn.Own Conn.OwnFrame Conn.OwnStep Conn.OwnUndet Conn.Account Corr.ConnTrace.
 
 (* WFpid (the interval allocator's representation invariant over [1, idmax]) holds initially and
    is re-established by each of the id-management calls below. *)
@@ -149,10 +149,32 @@ Theorem C08_awaited_in_one_set : forall g c id, OWN g c ->
 Proof. exact own_awaited_once. Qed.
 Print Assumptions C08_awaited_in_one_set.
 
-(* C08_partial: the per-call accounting "released events = ids that turn free" for the calls other
-   than the id-management ones and the no-leak-on-close clause are checked by the monitor mon_c08 on
-   the implementation's traces (with the in-use set from the hook) and by the projection
-   correspondence. *)
+(* RELEASE ACCOUNTING, EVERY CALL (Conn/Account.v, a walk through every function of the model with its events).
+   For every call other than those that take identifiers into use (acquire, register, restore_packets — they
+   have their own theorems), from every state with the ownership invariant: the identifiers announced by
+   NotifyPacketIdReleased in this call are pairwise distinct, each was in use before the call, and after the
+   call exactly the announced ones have turned free (in use afterwards <=> in use before and not announced) —
+   or every identifier is free: the wholesale reset of a new session (reached only through send_connect,
+   the CONNECT / CONNACK handlers).  Sends, refusals, acknowledgements, close, resume with oversize drops,
+   erase, release_packet_id, timers, every received packet. *)
+Theorem C08_step_accounts : forall g c o, OWNU g c -> takes_ids o = false ->
+  match step g c o with
+  | Ok (c', e, _) => accp g (c_pid c) (c_pid c') (released e)
+  | Panic _ => True
+  end.
+Proof. exact step_accounts. Qed.
+Print Assumptions C08_step_accounts.
+
+Theorem C08_release_accounting : forall g c o c' e r, OWNU g c -> takes_ids o = false -> step g c o = Ok (c', e, r) ->
+  NoDup (released e) /\ (forall id, In id (released e) -> is_used c id = true) /\
+  ((forall id, is_used c' id = is_used c id && negb (inb id (released e))) \/ (forall id, is_used c' id = false)).
+Proof. exact step_release_accounting. Qed.
+Print Assumptions C08_release_accounting.
+
+(* C08_partial: on the MODEL side what is left to the monitor alone is the classification of the calls that
+   may reset (a reset happens only when a new session starts) and the no-leak-on-close clause as a statement
+   about ownership ghosts; the implementation is judged by mon_c08 on its traces (with the in-use set from the
+   hook), by the store and allocator stages, and tied to the model by the projection correspondence. *)
 
 Example C08_nonvacuous :
   let g := mkCfg RClient 65535 2 in
@@ -210,3 +232,19 @@ Example C08_ownership_undetermined_nonvacuous :
   | None => False
   end.
 Proof. vm_compute. repeat split; try reflexivity; try discriminate; intros; try discriminate. Qed.
+
+(* release accounting on a concrete call: a non-persistent close with a SUBSCRIBE and a QoS 1 PUBLISH in
+   flight announces exactly their two identifiers, and exactly those turn free *)
+Example C08_accounting_nonvacuous :
+  let g := mkCfg RClient 65535 2 in
+  let cn := mkPkt 1 V311 0 0 false false [] None 0 0 14 false 0 true 0 None None None None None in
+  let ca := mkPkt 2 V311 0 0 false false [] None 0 0 4 true 0 false 0 None None None None None in
+  let sb := mkPkt 8 V311 1 0 false false [116] None 0 0 8 false 0 false 0 None None None None None in
+  let pb := mkPkt 3 V311 2 1 false false [116] None 0 0 7 false 0 false 0 None None None None None in
+  match run_state g (conn_new g V311) [OSend cn; ORecv [32;2;0;0] (PROk ca); OAcquire; OSend sb; OAcquire; OSend pb; OAcquire] with
+  | Some c => match step g c OClosed with
+              | Ok (c', e, _) => released e = [1; 2] /\ is_used c 1 = true /\ is_used c' 1 = false /\ is_used c' 2 = false /\ is_used c' 3 = true
+              | Panic _ => False end
+  | None => False
+  end.
+Proof. vm_compute. repeat split; reflexivity. Qed.
